@@ -560,9 +560,9 @@ def _report(ctx, name, res, replay_base):
 def run(ctx):
     w = core.NCPU
     if ctx.tier == "quick":
-        rL, sL, sOut, U = 4, 3, 99, 6
+        rL, sL, sOut, U = 5, 4, 99, 7
     else:
-        rL, sL, sOut, U = 7, 4, 99, 8
+        rL, sL, sOut, U = 8, 5, 99, 9
     res = run_rangeset(ctx, U)
     _report(ctx, "rangeset", res, {"U": U})
     res = run_receiver(ctx, rL, w)
@@ -570,8 +570,8 @@ def run(ctx):
     res = run_sender(ctx, sL, sOut, w)
     _report(ctx, "sender", res, {"L": sL, "max_out": sOut})
     if ctx.tier == "thorough":
-        res = run_sender(ctx, 5, 2, w)
-        _report(ctx, "sender_L5_out2", res, {"L": 5, "max_out": 2})
+        res = run_sender(ctx, 6, 2, w)
+        _report(ctx, "sender_L6_out2", res, {"L": 6, "max_out": 2})
     ctx.cov["rule"] = (
         "explicit-state BFS to closure over real QuicStreamReceiver/QuicStreamSender/RangeSet "
         "objects; alphabet = every (offset,len,fin) frame and reset within length bound L, every "
